@@ -31,12 +31,15 @@ fn binding_facts(meta: &str) -> Vec<(String, String, String)> {
     out
 }
 
-pub fn compare(src_files: &[(String, String)], nopipe: bool) -> String {
+pub fn compare(src_files: &[(String, String)], nopipe: bool) -> String { compare_with(src_files, nopipe, false) }
+
+/// `layout`: with the layout-consistency validation of the shared front end switched on
+pub fn compare_with(src_files: &[(String, String)], nopipe: bool, layout: bool) -> String {
     let list: Vec<(&str, &str)> = src_files.iter().map(|(a, b)| (a.as_str(), b.as_str())).collect();
     // an input that tests the RSSL_TARGET_* macros is only compared between the targets for which they have the same values
     let tests_macros = src_files.iter().any(|(_, t)| t.contains("RSSL_TARGET"));
     let targets: &[&str] = if tests_macros { &TARGETS[..3] } else { TARGETS };
-    let outs: Vec<_> = targets.iter().map(|t| compile_src(&list, &src_files[0].0, t, nopipe, false, None, &[])).collect();
+    let outs: Vec<_> = targets.iter().map(|t| compile_src(&list, &src_files[0].0, t, nopipe, layout, None, &[])).collect();
     if outs.iter().any(|o| o.kind == "PANIC") { return format!("DISAGREE a target aborted: {:?}", outs.iter().map(|o| o.kind).collect::<Vec<_>>()); }
     // 1. front-end verdict and diagnostic
     let fronts: Vec<Option<String>> = outs.iter().map(|o| if o.kind == "ERR" { front_error_class(&o.text) } else { None }).collect();
@@ -94,7 +97,9 @@ fn strip_annotations(text: &str) -> String {
 pub fn run_line(line: &str) -> String {
     let w: Vec<&str> = line.split_whitespace().collect();
     if w.len() < 3 || w[0] != "X" { return "BAD-CASE".into(); }
-    let nopipe = w[w.len() - 1] == "nopipe";
+    // the last word is the mode: all | nopipe, with `+L` for layout validation switched on
+    let (mode, layout) = match w[w.len() - 1].strip_suffix("+L") { Some(m) => (m, true), None => (w[w.len() - 1], false) };
+    let nopipe = mode == "nopipe";
     let spec = &w[1..w.len() - 1];
     let files: Vec<(String, String)> = if spec[0] == "R" {
         if spec.len() < 8 { return "BAD-CASE".into(); }
@@ -112,8 +117,18 @@ pub fn run_line(line: &str) -> String {
         let mut it = p.split(':');
         let (name, k) = (it.next().unwrap_or("X"), it.next().and_then(|x| x.parse::<u32>().ok()).unwrap_or(0));
         vec![("main.rssl".into(), probe_program(name, k))]
+    } else if let Some(name) = spec[0].strip_prefix("c07:") {
+        match crate::c07::program_source(name) { Some(t) => vec![("main.rssl".into(), t)], None => return "BAD-CASE".into() }
+    } else if let Some(k) = spec[0].strip_prefix("layout:") {
+        // a buffer element type whose HLSL and Metal layouts differ (odd k) or agree (even k)
+        let k: u32 = k.parse().unwrap_or(0);
+        let body = match k % 4 { 0 => "float4 a; float4 b;", 1 => "float3 position; float3 velocity;", 2 => "uint a; float b;", _ => "float a; half b; half2 c;" };
+        let use_ = match (k / 4) % 3 { 0 => "StructuredBuffer<El> g_in;\n[numthreads(64, 1, 1)] void CSMAIN(uint3 id : SV_DispatchThreadID) { El e = g_in[id.x]; g_out.Store(0, 1u); }",
+                                       1 => "ByteAddressBuffer g_in;\n[numthreads(64, 1, 1)] void CSMAIN(uint3 id : SV_DispatchThreadID) { El e = g_in.Load<El>(0); g_out.Store(0, 1u); }",
+                                       _ => "RWStructuredBuffer<El> g_in;\n[numthreads(64, 1, 1)] void CSMAIN(uint3 id : SV_DispatchThreadID) { El e = g_in[id.x]; g_in[id.x] = e; g_out.Store(0, 1u); }" };
+        vec![("main.rssl".into(), format!("struct El {{ {} }};\nRWByteAddressBuffer g_out;\n{}\nPipeline Main {{ ComputeShader = CSMAIN; }}\n", body, use_))]
     } else { return "BAD-CASE".into() };
-    compare(&files, nopipe)
+    compare_with(&files, nopipe, layout)
 }
 
 fn probe_program(name: &str, k: u32) -> String {
@@ -162,6 +177,9 @@ pub fn gen_cases(seed: u64, n: usize, _thorough: bool) -> Vec<String> {
         }
     }
     for name in crate::c14::program_names() { for m in ["all", "nopipe"] { out.push(format!("X c14:{} {}", name, m)); } }
+    // the layout validation is part of the shared front end: its verdict is the same for every target
+    for k in 0..12 { for m in ["all+L", "nopipe+L", "all"] { out.push(format!("X layout:{} {}", k, m)); } }
+    for name in ["layout", "globals", "groups"] { out.push(format!("X c07:{} all+L", name)); }
     let entries = ["CSMAIN", "main", "kernel", "Main", "compute"];
     for _ in 0..n {
         let nd = rng.range(0, 7) as usize;
